@@ -6,6 +6,7 @@ package mqtt
 // Comments only; see verif_contracts_codec.go.
 
 //@ func KeepAlive
+//@   params ctx cli interval timeout
 //@   mode int
 //@   props C09 C13
 //@   requires ctx != nil && cli != nil
@@ -26,6 +27,7 @@ package mqtt
 //@   ensures[C13] other_error: evCount("select") == 2 && evRet[int]("select", 1, 0) != 0 ==> result == evRet[error]("Client.Ping", 0, 0)
 
 //@ func (*ReconnectOptions).timeoutContext
+//@   params c ctx
 //@   mode int
 //@   props C09
 //@   requires c != nil && ctx != nil
@@ -38,6 +40,7 @@ package mqtt
 //@ closer reconnectClient.done (*reconnectClient).Connect$1$1
 
 //@ func (*reconnectClient).Connect$1
+//@   params ctx
 //@   mode int
 //@   props C09 C13 C08 C01 C03 C17 C16
 //@   note the loop goroutine of the reconnecting client. Trusted: Connect is called once per reconnectClient (a second call would close c.done twice).
@@ -105,6 +108,7 @@ package mqtt
 //@        evArg[error]("(*BaseClient).SetErrorOnce", 0, 1) == evRet[error]("KeepAlive", 0, 0) && evIndex("(*BaseClient).SetErrorOnce", 0) < evIndex("Transport.Close", 0)
 
 //@ func (*reconnectClient).Connect
+//@   params c ctx clientID opts
 //@   mode int
 //@   props C09 C13
 //@   note Trusted: Connect is called once per reconnectClient.
@@ -127,6 +131,7 @@ package mqtt
 //@ closer reconnectClient.disconnected (*reconnectClient).Disconnect
 
 //@ func (*reconnectClient).Disconnect
+//@   params c ctx
 //@   mode int
 //@   props C09
 //@   note Trusted: Disconnect is called once per reconnectClient (a second call would close c.disconnected twice).
@@ -141,6 +146,7 @@ package mqtt
 // ---- reconnect options (C09, C13, C08): each constructor sets exactly its own fields ----
 
 //@ func WithTimeout$1
+//@   params o
 //@   mode int
 //@   props C09 C13
 //@   requires o != nil
@@ -148,6 +154,7 @@ package mqtt
 //@   ensures[C09,C13] sets: result == nil && o.Timeout == timeout
 
 //@ func WithReconnectWait$1
+//@   params o
 //@   mode int
 //@   props C09
 //@   requires o != nil
@@ -155,6 +162,7 @@ package mqtt
 //@   ensures[C09] sets: result == nil && o.ReconnectWaitBase == base && o.ReconnectWaitMax == max
 
 //@ func WithPingInterval$1
+//@   params o
 //@   mode int
 //@   props C13
 //@   requires o != nil
@@ -162,6 +170,7 @@ package mqtt
 //@   ensures[C13] sets: result == nil && o.PingInterval == interval
 
 //@ func WithRetryClient$1
+//@   params o
 //@   mode int
 //@   props C09
 //@   requires o != nil
@@ -169,6 +178,7 @@ package mqtt
 //@   ensures[C09] sets: result == nil && o.RetryClient == cli
 
 //@ func WithAlwaysResubscribe$1
+//@   params o
 //@   mode int
 //@   props C08
 //@   requires o != nil
@@ -184,6 +194,7 @@ package mqtt
 //@ end
 
 //@ func NewReconnectClient
+//@   params dialer opts
 //@   mode int
 //@   props C09
 //@   requires dialer != nil
